@@ -105,6 +105,7 @@ ALPHABET = [
   ("push_children", "d1.rtc1", ["d1.rt2"], "list"),
   ("push_children", "d1.rtc1", ["d1.rt1", "d1.rt2"], "generator"),
   ("push_children", "d1.div1", ["d1.p1", "d1.p2"], "list"),
+  ("push_children", "d1.div2", ["d1.div1"], "list"),
   ("push_children", "d1.div2", ["d1.p2", "d1.span2", "d1.p1"], "generator"),
   ("remove", "d1.div1"),
   ("remove", "d1.div2"),
@@ -360,13 +361,20 @@ def check(case, res):
 
 
 # ------------------------------------------------------------------------------------------------ random histories
+# Hypothesis favours small values and first list entries (and repeats them): every pool is ordered so that the first
+# entry / the low branch is the common, *valid* shape, and the exotic shapes sit in the high branches.
 
-_P = st.integers(0, 99).map(lambda i: i / 100.0)
-_CONTAINERS = [("Div", 5), ("P", 5), ("Span", 5), ("Body", 2), ("Rb", 1), ("Rt", 1), ("Rp", 1), ("Rbc", 2), ("Rtc", 3), ("Ruby", 1),
+_P = st.integers(0, 99)
+_ANY = ("Div", "P", "Span", "Br", "Text", "Ruby", "Rb", "Rt", "Rp", "Rbc", "Rtc", "Body")
+_CONTAINERS = [("Div", 5), ("P", 5), ("Span", 5), ("Body", 2), ("Rbc", 2), ("Rtc", 3), ("Rb", 1), ("Rt", 1), ("Rp", 1), ("Ruby", 1),
                ("Br", 1), ("Text", 1)]
 _CONTAINER_POOL = [k for k, w in _CONTAINERS for _ in range(w)]
 _DOC_POOL = ["d1"] * 8 + ["d2"] * 2 + ["x"]
 _OTHER = {"d1": ["d2", "d2", "x"], "d2": ["d1", "d1", "x"], "x": ["d1", "d2"]}
+_PARENT_OF = {"Div": ("Div", "Body"), "P": ("Div",), "Span": ("P", "Span", "Rb", "Rt"), "Br": ("P", "Span"), "Text": ("Span",),
+              "Ruby": ("P",), "Rb": ("Rbc",)}
+_MOVABLE = ("P", "Span", "Div", "Br", "Text", "Ruby", "Rb")
+_STYLED = ("P", "Div", "Span", "Body", "Ruby", "Rb", "Rt", "Rtc", "Br", "Text")
 
 
 def _name(d, k, i):
@@ -375,47 +383,60 @@ def _name(d, k, i):
   return "%s.%s%d" % (d, k.lower(), i)
 
 
+def _doc_of(name):
+  return name.split(".")[0]
+
+
 @st.composite
-def _elem(draw, kinds=None, near=None, stray=0.12):
+def _elem(draw, kinds=None, near=None, stray=12):
   """an element name: kind from `kinds` (default any), document `near` unless it strays to another one"""
-  k = draw(st.sampled_from(kinds)) if kinds else draw(st.sampled_from(KINDS))
+  k = draw(st.sampled_from(kinds or _ANY))
   if near is None:
     d = draw(st.sampled_from(_DOC_POOL))
-  elif draw(_P) < stray:
+  elif draw(_P) >= 100 - stray:
     d = draw(st.sampled_from(_OTHER[near]))
   else:
     d = near
   return _name(d, k, draw(st.integers(1, 2)))
 
 
-def _doc_of(name):
-  return name.split(".")[0]
-
-
 @st.composite
 def _region(draw, near):
   d = near if near in DOCS else draw(st.sampled_from(DOCS))
   r = draw(_P)
-  if r < 0.50:
+  if r < 50:
     return "%s.%s" % (d, draw(st.sampled_from(["rA", "rA", "rB"])))
-  if r < 0.68:
+  if r < 68:
     return d + ".rA2"
-  if r < 0.86:
+  if r < 90:
     return "%s.%s" % ("d2" if d == "d1" else "d1", draw(st.sampled_from(["rA", "rA2", "rB"])))
   return "x.rA"
 
 
 @st.composite
 def _style_args(draw):
-  prop = draw(st.sampled_from(mu.PROPS + ("FontFamily", "FontFamily", "FontFamily", "Color", "Color")))
+  prop = draw(st.sampled_from(("Color", "FontFamily", "FontFamily") + mu.PROPS))
   r = draw(_P)
-  if r < 0.08:
-    return prop, None
-  if r < 0.10:
-    return "NoSuchProperty", draw(st.sampled_from(mu.VIDS))
-  if r < 0.60:
+  if r < 50:
     return prop, draw(st.sampled_from(mu.VALID_VIDS[prop]))
-  return prop, draw(st.sampled_from(mu.INVALID_VIDS[prop]))
+  if r < 90:
+    return prop, draw(st.sampled_from(mu.INVALID_VIDS[prop]))
+  if r < 97:
+    return prop, None
+  return "NoSuchProperty", draw(st.sampled_from(mu.VIDS))
+
+
+def _pattern_items(draw, pattern, d, stray=7):
+  flip = draw(st.integers(0, 1))
+  seen, items = Counter(), []
+  for k in pattern:
+    seen[k] += 1
+    dd = d if draw(_P) < 100 - stray else draw(st.sampled_from(_OTHER[d]))
+    items.append(_name(dd, k, 1 + (seen[k] - 1 + flip) % 2))
+  return items
+
+
+_RTC_SHAPES = [("Rt",), ("Rt", "Rt"), ("Rp", "Rt", "Rp"), ("Rp", "Rt", "Rt", "Rp"), ("Rp", "Rp"), ("Rp", "Rt"), ("Rt", "Rp"), ()]
 
 
 @st.composite
@@ -426,109 +447,91 @@ def _op(draw):
     parent = draw(_elem([pk]))
     allowed = mu.ALLOWED[pk]
     r = draw(_P)
-    if r < 0.03:
+    if r >= 97:
       return (kind, parent, None)
-    child = draw(_elem(allowed if allowed and r < 0.85 else None, near=_doc_of(parent)))
-    return (kind, parent, child)
+    return (kind, parent, draw(_elem(allowed if allowed and r < 84 else None, near=_doc_of(parent))))
   if kind == "push_children":
     r = draw(_P)
     mode = draw(st.sampled_from(["list", "list", "list", "generator"]))
-    if r < 0.45:
+    if r < 45:
       target = draw(_elem(["Ruby"]))
       d = _doc_of(target)
-      if draw(_P) < 0.8:
-        pat = draw(st.sampled_from(mu.RUBY_PUSHABLE))
-        flip = draw(st.integers(0, 1))
-        seen, items = Counter(), []
-        for k in pat:
-          seen[k] += 1
-          idx = 1 + (seen[k] - 1 + flip) % 2
-          dd = d if draw(_P) < 0.93 else draw(st.sampled_from(_OTHER[d]))
-          items.append(_name(dd, k, idx))
-        return (kind, target, items, mode)
+      if draw(_P) < 80:
+        return (kind, target, _pattern_items(draw, draw(st.sampled_from(mu.RUBY_PUSHABLE)), d), mode)
       return (kind, target, draw(st.lists(_elem(["Rb", "Rt", "Rp", "Rbc", "Rtc", "Span"], near=d), max_size=4)), mode)
-    if r < 0.75:
+    if r < 75:
       target = draw(_elem(["Rtc"]))
-      d = _doc_of(target)
-      shape = draw(st.sampled_from([("Rt",), ("Rt", "Rt"), ("Rp", "Rt", "Rp"), ("Rp", "Rt", "Rt", "Rp"), ("Rp", "Rp"), ("Rp", "Rt"), ("Rt", "Rp"), ()]))
-      flip = draw(st.integers(0, 1))
-      seen, items = Counter(), []
-      for k in shape:
-        seen[k] += 1
-        dd = d if draw(_P) < 0.93 else draw(st.sampled_from(_OTHER[d]))
-        items.append(_name(dd, k, 1 + (seen[k] - 1 + flip) % 2))
-      return (kind, target, items, mode)
+      return (kind, target, _pattern_items(draw, draw(st.sampled_from(_RTC_SHAPES)), _doc_of(target)), mode)
     pk = draw(st.sampled_from(["Div", "P", "Span", "Body", "Rbc", "Rb"]))
     target = draw(_elem([pk]))
-    items = draw(st.lists(_elem(mu.ALLOWED[pk], near=_doc_of(target), stray=0.08), max_size=3, unique=True))
-    if draw(_P) < 0.15:
+    items = draw(st.lists(_elem(mu.ALLOWED[pk], near=_doc_of(target), stray=8), max_size=3, unique=True))
+    if draw(_P) >= 85:
       items.append(draw(_elem(None, near=_doc_of(target))))
     return (kind, target, items, mode)
   if kind == "remove":
-    return (kind, draw(_elem(["Div", "Div", "P", "P", "Span", "Span", "Br", "Text", "Ruby", "Rb", "Rt", "Rp", "Rbc", "Rtc", "Body"])))
+    return (kind, draw(_elem(["P", "Span", "Div", "P", "Span", "Div", "Br", "Text", "Ruby", "Rb", "Rt", "Rp", "Rbc", "Rtc", "Body"])))
   if kind == "remove_child":
     pk = draw(st.sampled_from(_CONTAINER_POOL))
     parent = draw(_elem([pk]))
     allowed = mu.ALLOWED[pk]
     r = draw(_P)
-    if r < 0.03:
+    if r >= 97:
       return (kind, parent, None)
-    return (kind, parent, draw(_elem(allowed if allowed and r < 0.9 else None, near=_doc_of(parent), stray=0.05)))
+    return (kind, parent, draw(_elem(allowed if allowed and r < 90 else None, near=_doc_of(parent), stray=5)))
   if kind == "remove_children":
     return (kind, draw(_elem([draw(st.sampled_from(_CONTAINER_POOL + ["Ruby", "Ruby", "Rtc"]))])))
   if kind == "set_doc":
-    r = draw(_P)
-    x = draw(_region(None)) if r < 0.12 else draw(_elem())
-    return (kind, x, draw(st.sampled_from([None, None, "d1", "d2"])))
+    x = draw(_elem()) if draw(_P) < 88 else draw(_region(None))
+    return (kind, x, draw(st.sampled_from([None, "d1", None, "d2"])))
   if kind == "set_region":
-    x = draw(_elem(["Div", "Div", "P", "P", "Span", "Span", "Body", "Br", "Text", "Ruby", "Rb", "Rt", "Rtc"]))
+    x = draw(_elem(["P", "Div", "Span", "P", "Div", "Span", "Body", "Br", "Text", "Ruby", "Rb", "Rt", "Rtc"]))
     r = draw(_P)
-    if r < 0.10:
+    if r < 83:
+      return (kind, x, draw(_region(_doc_of(x))))
+    if r < 93:
       return (kind, x, None)
-    if r < 0.14:
+    if r < 97:
       return (kind, x, draw(_elem(near=_doc_of(x))))
-    if r < 0.17:
-      return (kind, draw(_region(None)), draw(_region(None)))
-    return (kind, x, draw(_region(_doc_of(x))))
+    return (kind, draw(_region(None)), draw(_region(None)))
   if kind == "put_region":
     d = draw(st.sampled_from(["d1", "d1", "d1", "d2"]))
     r = draw(_P)
-    if r < 0.04:
-      return (kind, d, None)
-    if r < 0.09:
+    if r < 55:
+      return (kind, d, draw(st.sampled_from([d + ".rA2", d + ".rA", d + ".rA2", d + ".rB"])))
+    if r < 91:
+      return (kind, d, draw(_region(d)))
+    if r < 96:
       return (kind, d, draw(_elem(near=d)))
-    if r < 0.60:
-      return (kind, d, draw(st.sampled_from([d + ".rA2", d + ".rA2", d + ".rA", d + ".rB"])))
-    return (kind, d, draw(_region(d)))
+    return (kind, d, None)
   if kind == "remove_region":
     return (kind, draw(st.sampled_from(["d1", "d1", "d1", "d2"])), draw(st.sampled_from(["A", "A", "A", "B", "B", "Z"])))
   if kind == "set_body":
     d = draw(st.sampled_from(["d1", "d1", "d1", "d2"]))
     r = draw(_P)
-    if r < 0.15:
+    if r < 75:
+      return (kind, d, draw(_elem(["Body"], near=d)))
+    if r < 90:
       return (kind, d, None)
-    if r < 0.25:
-      return (kind, d, draw(_elem(near=d)))
-    return (kind, d, draw(_elem(["Body"], near=d)))
+    return (kind, d, draw(_elem(near=d)))
   if kind == "set_style":
     prop, vid = draw(_style_args())
-    return (kind, draw(_elem()), prop, vid)
+    return (kind, draw(_elem(_STYLED)), prop, vid)
   if kind == "add_animation_step":
     prop, vid = draw(_style_args())
-    if draw(_P) < 0.04:
+    if draw(_P) >= 96:
       prop = "not-a-step"
-    return (kind, draw(_elem()), prop, vid, draw(st.one_of(st.none(), st.integers(0, 3))), draw(st.one_of(st.none(), st.integers(1, 5))))
+    return (kind, draw(_elem(_STYLED)), prop, vid, draw(st.one_of(st.none(), st.integers(0, 3))), draw(st.one_of(st.none(), st.integers(1, 5))))
   if kind == "put_initial_value":
     prop, vid = draw(_style_args())
     return (kind, draw(st.sampled_from(DOCS)), prop, vid)
   if kind == "copy_to":
-    a = draw(_elem())
+    a = draw(_elem(_STYLED))
     r = draw(_P)
-    if r < 0.03:
-      return (kind, a, None)
-    if r < 0.6:
-      return (kind, a, draw(_elem([KIND[a]], near=_doc_of(a), stray=0.3)))
-    return (kind, a, draw(_elem()))
+    if r < 60:
+      return (kind, a, draw(_elem([KIND[a]], near=_doc_of(a), stray=30)))
+    if r < 97:
+      return (kind, a, draw(_elem()))
+    return (kind, a, None)
   raise ValueError(kind)
 
 
@@ -536,13 +539,56 @@ _OP_WEIGHTS = [("push_child", 30), ("push_children", 9), ("remove", 11), ("remov
                ("set_region", 10), ("put_region", 5), ("remove_region", 4), ("set_body", 3), ("set_style", 6), ("add_animation_step", 3),
                ("put_initial_value", 2), ("copy_to", 2)]
 _OP_POOL = [k for k, w in _OP_WEIGHTS for _ in range(w)]
+_FRAGMENTS = [("one", 66), ("move", 12), ("ref-remove", 4), ("ref-replace", 4), ("chain", 5), ("ruby", 3), ("move-doc", 3), ("rtc", 3)]
+_FRAGMENT_POOL = [k for k, w in _FRAGMENTS for _ in range(w)]
+
+
+@st.composite
+def _fragment(draw):
+  """one call, or a short run of calls that builds one of the shapes the property's quantifier singles out"""
+  f = draw(st.sampled_from(_FRAGMENT_POOL))
+  if f == "one":
+    return [draw(_op())]
+  d = draw(st.sampled_from(["d1", "d1", "d1", "d2"]))
+  i, j = draw(st.integers(1, 2)), draw(st.integers(1, 2))
+  if f == "move":
+    k = draw(st.sampled_from(_MOVABLE))
+    x = _name(d, k, i)
+    q = _name(d, draw(st.sampled_from(_PARENT_OF[k])), j)
+    return [("remove", x), ("push_child", q, x)]
+  if f == "move-doc":
+    k = draw(st.sampled_from(_MOVABLE))
+    x = _name(d, k, i)
+    o = "d2" if d == "d1" else "d1"
+    q = _name(o, draw(st.sampled_from(_PARENT_OF[k])), j)
+    return [("remove", x), ("remove_children", x), ("set_doc", x, None), ("set_doc", x, o), ("push_child", q, x)]
+  if f == "ref-remove":
+    x = _name(d, draw(st.sampled_from(("P", "Div", "Span", "Body"))), i)
+    r = draw(st.sampled_from(["rA", "rB"]))
+    return [("set_region", x, "%s.%s" % (d, r)), ("remove_region", d, mu.REGION_IDS[r])]
+  if f == "ref-replace":
+    x = _name(d, draw(st.sampled_from(("P", "Div", "Span", "Body"))), i)
+    first, second = draw(st.sampled_from([("rA", "rA2"), ("rA2", "rA")]))
+    return [("put_region", d, "%s.%s" % (d, first)), ("set_region", x, "%s.%s" % (d, first)), ("put_region", d, "%s.%s" % (d, second))]
+  if f == "chain":
+    b, dv, p, s, t = (_name(d, k, draw(st.integers(1, 2))) for k in ("Body", "Div", "P", "Span", "Text"))
+    return [("set_body", d, b), ("push_child", b, dv), ("push_child", dv, p), ("push_child", p, s), ("push_child", s, t)]
+  if f == "ruby":
+    ruby = _name(d, "Ruby", i)
+    return [("push_children", ruby, _pattern_items(draw, draw(st.sampled_from(mu.RUBY_PUSHABLE)), d, stray=0), "list"),
+            ("push_child", _name(d, "P", j), ruby)]
+  if f == "rtc":
+    rtc = _name(d, "Rtc", i)
+    a = draw(st.integers(1, 2))
+    return [("push_child", rtc, _name(d, "Rp", a)), ("push_child", rtc, _name(d, "Rt", j)), ("push_child", rtc, _name(d, "Rp", 3 - a))]
+  raise ValueError(f)
 
 
 def _histories(profile):
   def strat(tier):
     n = 40 if tier == "quick" else 80
-    return st.builds(lambda start, ops: {"start": start, "profile": profile, "ops": ops},
-                     st.sampled_from(["flat", "tree"]), st.lists(_op(), min_size=n // 2, max_size=n))
+    return st.builds(lambda start, frags: {"start": start, "profile": profile, "ops": [o for f in frags for o in f][:n]},
+                     st.sampled_from(["tree", "flat"]), st.lists(_fragment(), min_size=n // 3, max_size=n))
   return strat
 
 
